@@ -12,32 +12,33 @@ Pool == JsonDeserialize(IOEnv.POOL)     \* [full, core, core4: Seq(value json), 
 Trees == JsonDeserialize(IOEnv.TREES)
 Tr == Trees[Pool.src].nodes
 
-Vals(p) == {FromJ(p[i]) : i \in 1..Len(p)}
-Tuples(S, n) == [1..n -> S]
-
-ArgTuples ==
-  {<<>>} \cup Tuples(Vals(Pool.full), 1) \cup Tuples(Vals(Pool.full), 2)
-         \cup (IF Pool.maxlen >= 3 THEN Tuples(Vals(Pool.core), 3) ELSE {})
-         \cup (IF Pool.maxlen >= 4 THEN Tuples(Vals(Pool.core4), 4) ELSE {})
+\* State variables hold pool indices, not the values: TLC writes queued states to disk with one byte per character, so text
+\* outside ASCII must not be part of a state that is read again later.
+PoolOf(w) == CASE w = "full" -> Pool.full [] w = "core" -> Pool.core [] w = "core4" -> Pool.core4 [] OTHER -> <<>>
+IdxTuples(w, n) == [1..n -> 1..Len(PoolOf(w))]
 
 SynFns == {"named-child-index", "source-text", "start-row", "start-column", "end-row", "end-column", "node-type", "named-child-count"}
 
 G0 == AddGraphNode(AddGraphNode(EmptyGraph))
 
-VARIABLES fn, args, phase, result
-vars == <<fn, args, phase, result>>
+VARIABLES fn, which, idx, phase, result
+vars == <<fn, which, idx, phase, result>>
+args == IF which = "syn" THEN <<VSyn(idx[1])>> ELSE [i \in 1..Len(idx) |-> FromJ(PoolOf(which)[idx[i]])]
 
 Init ==
   /\ phase = "call"
   /\ result = [ok |-> FALSE, kind |-> "pending"]
-  /\ \/ fn \in StdlibNames \cup {"no-such-fn"} /\ args \in ArgTuples
-     \/ fn \in SynFns /\ args \in {<<VSyn(n)>> : n \in 1..Len(Tr)}
+  /\ \/ /\ fn \in StdlibNames \cup {"no-such-fn"}
+        /\ \/ which = "full" /\ idx \in {<<>>} \cup IdxTuples("full", 1) \cup IdxTuples("full", 2)
+           \/ Pool.maxlen >= 3 /\ which = "core" /\ idx \in IdxTuples("core", 3)
+           \/ Pool.maxlen >= 4 /\ which = "core4" /\ idx \in IdxTuples("core4", 4)
+     \/ fn \in SynFns /\ which = "syn" /\ idx \in {<<n>> : n \in 1..Len(Tr)}
 
 CallFn ==
   /\ phase = "call"
   /\ result' = Call(fn, args, G0, Tr)
   /\ phase' = "done"
-  /\ UNCHANGED <<fn, args>>
+  /\ UNCHANGED <<fn, which, idx>>
 
 Spec == Init /\ [][CallFn]_vars
 
